@@ -1018,6 +1018,9 @@ enum Entry {
 	/// the genuine header of that height was accepted header-first, then the full block arrives
 	/// under the candidate header (a raw candidate keeps the genuine proof, i.e. the same hash)
 	BlockKnown,
+	/// the genuine header of that height was accepted first, then the candidate arrives through header sync
+	/// (a raw candidate keeps the genuine proof, i.e. the hash of a header the node already has)
+	SyncKnown,
 	Read,
 }
 
@@ -1028,6 +1031,7 @@ impl Entry {
 			Entry::Sync(_) => "sync_block_headers",
 			Entry::Block => "process_block",
 			Entry::BlockKnown => "process_block_after_header",
+			Entry::SyncKnown => "sync_block_headers_after_header",
 			Entry::Read => "untrusted_read",
 		}
 	}
@@ -1671,7 +1675,7 @@ fn run_pipeline(r: &mut Report, id: &CaseId, cand: &BlockHeader, e: Entry) {
 			known.add(&rh(&s.header));
 		}
 	}
-	if e == Entry::BlockKnown {
+	if e == Entry::BlockKnown || e == Entry::SyncKnown {
 		let genuine = u.blocks[h as usize].header.clone();
 		let ok = catch_unwind(AssertUnwindSafe(|| chain.process_block_header(&genuine, Options::NONE)));
 		if !matches!(ok, Ok(Ok(_))) {
@@ -1703,7 +1707,7 @@ fn run_pipeline(r: &mut Report, id: &CaseId, cand: &BlockHeader, e: Entry) {
 	let call = catch_unwind(AssertUnwindSafe(|| -> Result<(), String> {
 		match e {
 			Entry::Pbh => chain.process_block_header(cand, Options::NONE).map_err(|e| err_class(&e)),
-			Entry::Sync(_) => {
+			Entry::Sync(_) | Entry::SyncKnown => {
 				let sh = chain.header_head().expect("header_head");
 				chain.sync_block_headers(&batch, sh, Options::NONE).map(|_| ()).map_err(|e| err_class(&e))
 			}
@@ -1769,7 +1773,7 @@ fn run_pipeline(r: &mut Report, id: &CaseId, cand: &BlockHeader, e: Entry) {
 			}
 			// (after header-first delivery the genuine header, which a raw candidate shares its hash
 			// with, is rightly in the store)
-			if e != Entry::BlockKnown && batch.iter().any(|b| chain.get_block_header(&b.hash()).is_ok()) {
+			if e != Entry::BlockKnown && e != Entry::SyncKnown && batch.iter().any(|b| chain.get_block_header(&b.hash()).is_ok()) {
 				r.violation(
 					format!("headers:reject-stored:{}", e.name()),
 					format!("a header of a refused delivery is retrievable from the store: {}", what),
@@ -1788,6 +1792,9 @@ fn run_pipeline(r: &mut Report, id: &CaseId, cand: &BlockHeader, e: Entry) {
 				// the genuine header of equal work came first and keeps header_head and the MMR;
 				// the accepted block becomes the body head
 				ok = post.head == want_hh;
+			} else if e == Entry::SyncKnown {
+				// the genuine header of equal work came first and keeps header_head and the MMR
+				ok = post == pre;
 			} else if e == Entry::Block {
 				ok = ok && post.head == want_hh;
 			} else {
@@ -1860,6 +1867,9 @@ fn run_tuple(r: &mut Report, u: &Universe, h: u64, op: &str, remined: bool, tier
 	let mut entries = entries_for(h, op, tier);
 	if !remined && entries.contains(&Entry::Block) {
 		entries.push(Entry::BlockKnown);
+	}
+	if !remined {
+		entries.push(Entry::SyncKnown);
 	}
 	for e in entries {
 		if let Some((name, k)) = only {
